@@ -15,11 +15,34 @@ def model_ctx(exec_arn, data):
             "StateMachine": {"Id": machgen.ARN + "m1", "Name": "m1"}}
 
 
-def model_line(machine, data, exec_arn, oracle, fuel=400, max_data=None):
+# the switches of the findings that are open: the model is asked for what the code does where it is known to deviate
+# (`Env.retryPastDeadline` = C08-F1), so that the comparison stays exact everywhere else
+_QUIRKS = None
+
+
+def open_quirks():
+    """(`VERIF_MODEL_SWITCHES`, a comma-separated list or "-" for none, overrides the findings files: used to evaluate a
+    candidate fix against a scratch worktree — with the fix applied the code must agree with the switch *off*)"""
+    global _QUIRKS
+    import os
+    if _QUIRKS is None and os.environ.get("VERIF_MODEL_SWITCHES"):
+        v = os.environ["VERIF_MODEL_SWITCHES"]
+        _QUIRKS = [] if v == "-" else sorted(x for x in v.split(",") if x)
+    if _QUIRKS is None:
+        _QUIRKS = sorted(f["model_switch"] for f in common.load_findings()
+                         if f.get("status") == "open" and f.get("model_switch") and f.get("model") == "Asl.run")
+    return _QUIRKS
+
+
+def model_line(machine, data, exec_arn, oracle, fuel=400, max_data=None, quirks=None):
     """the `interp run` line; `max_data` (small-limit mode) is the size limit of the engine run, passed to the
-    model as `Env.maxData` in an optional seventh field"""
+    model as `Env.maxData` in an optional seventh field ("-": the default); an eighth field names the switches of
+    open findings the model runs with (`quirks`; by default those of the findings that are open)"""
     line = "interp\trun\t%s\t%s\t%s\t%s\t%d" % (pj(machgen.for_model(machine)), pj(data),
                                                  pj(model_ctx(exec_arn, data)), pj(oracle), fuel)
+    q = open_quirks() if quirks is None else quirks
+    if q:
+        return line + "\t%s\t%s" % ("-" if max_data is None else "%d" % max_data, ",".join(q))
     return line if max_data is None else line + "\t%d" % max_data
 
 
@@ -85,12 +108,24 @@ TIMED_SHARE = 0.35      # share of the generated cases made to exercise the cloc
 
 
 def gen_case(rng, depth, small=False, timed=False):
-    g = machgen.Gen(rng, max_depth=depth)
-    m = g.machine()
-    case = {"machine": m, "input": machgen.gen_input(rng), "plans": g.fns}
-    if timed:
-        machgen.timify(rng, case["machine"], case["plans"], case["input"])
+    want_limit = timed and rng.random() < machgen.LIMIT_SHARE
+    for attempt in range(4):
+        g = machgen.Gen(rng, max_depth=depth)
+        m = g.machine()
+        case = {"machine": m, "input": machgen.gen_input(rng), "plans": g.fns}
+        if not timed:
+            break
+        machgen.timify(rng, case["machine"], case["plans"], case["input"], slow=want_limit)
         case["timed"] = True
+        if not want_limit:
+            break
+        # an execution time limit, placed with a view to how long the run takes without one; a run that takes no time is
+        # drawn again (a few times): the limit is to run out somewhere
+        r0 = run_one(case)
+        end = next((x["t"] for x in r0.notifications if x["body"]["detail"].get("status") != "RUNNING"), None)
+        if end is not None and (end >= 1000 or attempt == 3):
+            machgen.set_time_limit(rng, case["machine"], end)
+            break
     if small and isinstance(case["input"], dict) and rng.random() < 0.4:
         # padded input: 450-900 characters, the limit 345.. above it but below twice its size.  A state that copies
         # its input into its result (a worker echoes its payload) is refused, while the Error Output — whose Cause
@@ -109,6 +144,11 @@ def timed_dist(chk, case, m, prefix="timed"):
     kinds = [e[0] for e in m.get("history", [])]
     if case.get("timed"):
         chk.dist(prefix + ".cases")
+        text = json.dumps(case["machine"])
+        if '"TimeoutSecondsPath"' in text:
+            chk.dist(prefix + ".machines_with_TimeoutSecondsPath")
+        if '"HeartbeatSeconds' in text:
+            chk.dist(prefix + ".machines_with_HeartbeatSeconds(Path)")
     if "LambdaFunctionTimedOut" in kinds:
         chk.dist(prefix + ".task_timed_out", kinds.count("LambdaFunctionTimedOut"))
     if "WaitStateExited" in kinds:
@@ -321,6 +361,12 @@ def run(chk):
             # worker's n-th answer is the arrival order, which the (branch by branch) reference semantics does not have
             chk.dist("oracle_order.not_compared")
             continue
+        why = enginerun.time_limit_incomparable(c["machine"], m, r.requests)
+        if why:
+            # an execution time limit and a worker's reply due at the very instant it runs out (the engine's timer is armed
+            # through float epoch seconds), or a run of a minute or more (the engine's back stop)
+            chk.dist("time_limit.not_compared.%s" % why)
+            continue
         if m.get("tieFail"):
             # several branches of one fan-out fail at the same instant (or an ItemSelector fails after earlier iterations
             # ran): which failure is the fan-out's is then not decided by the clock — C06 covers these families.  When they
@@ -340,11 +386,14 @@ def run(chk):
         # --- the history: every StateEntered / StateExited the engine wrote, and the number of task requests, against
         # the log of the reference semantics
         timed_dist(chk, c, m)
+        from props import c08
+        c08.limit_dist(chk, c["machine"], m, "timed")
         mode, hp, nev = enginerun.compare_history(c["machine"], m, r.history, len(r.requests), timed=True,
                                                   request_instants=[q["t"] for q in r.requests], requests=r.requests)
         chk.dist("history.%s" % mode)
         chk.dist("history.%s.events" % mode, nev)
-        nmode, np_ = enginerun.compare_notifications(m, [n["body"]["detail"] for n in r.notifications], c["input"], timed=True, requests=r.requests)
+        nmode, np_ = enginerun.compare_notifications(m, [n["body"]["detail"] for n in r.notifications], c["input"], timed=True, requests=r.requests,
+                                                     machine=c["machine"])
         chk.dist("notifications.%s" % nmode)
         hp = hp + np_
         if hp:
